@@ -242,10 +242,57 @@ class Uploader:
         return {"step": label, "status": status, "seconds": time.perf_counter() - t0, "exc": exc, "json": js}
 
     def inspect(self, data: bytes) -> list:
-        return [self._do("inspect", "POST", "/media/inspect",
-                         data={"file": (io.BytesIO(data), "c16fuzz.mp4", "video/mp4"),
-                               "csrf_token": self.token("files")},
-                         content_type="multipart/form-data")]
+        """POST /media/inspect.  The view is an `async def`; without Flask's optional
+        `async` extra (asgiref is not installed in this sandbox) Flask cannot dispatch
+        it, so the synchronous body of the view that handles an uploaded file
+        (`InspectMediaFile.show_uploaded_file`) is run inside a request context built
+        from the same multipart request, with Flask's own exception → 500 mapping."""
+        if self._async_ok():
+            return [self._do("inspect", "POST", "/media/inspect",
+                             data={"file": (io.BytesIO(data), "c16fuzz.mp4", "video/mp4"),
+                                   "csrf_token": self.token("files")},
+                             content_type="multipart/form-data")]
+        from dashlive.server.requesthandler.media_management import InspectMediaFile
+        del c16_http._LAST_EXC[:]
+        old = signal.signal(signal.SIGALRM, c16_http._alarm)
+        signal.setitimer(signal.ITIMER_REAL, c16_http.TIME_LIMIT)
+        t0 = time.perf_counter()
+        status, exc = 0, None
+        try:
+            with self.app.app.test_request_context(
+                    "/media/inspect", method="POST",
+                    data={"file": (io.BytesIO(data), "c16fuzz.mp4", "video/mp4"), "csrf_token": "x"},
+                    content_type="multipart/form-data"):
+                try:
+                    import contextlib
+                    with contextlib.redirect_stdout(io.StringIO()):
+                        rv = InspectMediaFile().show_uploaded_file()
+                    status = self.app.app.make_response(rv).status_code
+                except c16_http.Timeout:
+                    raise
+                except Exception as e:          # what Flask turns into a 500 response
+                    status = 500
+                    tb = __import__("traceback").extract_tb(e.__traceback__)
+                    where = next((f"{fr.filename.split('/dashlive/', 1)[1]}:{fr.name}" for fr in reversed(tb)
+                                  if "/dashlive/" in fr.filename), "?")
+                    exc = (type(e).__name__, where, str(e)[:160])
+        except c16_http.Timeout:
+            status = 0
+        finally:
+            signal.setitimer(signal.ITIMER_REAL, 0)
+            signal.signal(signal.SIGALRM, old)
+        return [{"step": "inspect", "status": status, "seconds": time.perf_counter() - t0, "exc": exc, "json": None}]
+
+    _ASYNC = None
+
+    def _async_ok(self) -> bool:
+        if Uploader._ASYNC is None:
+            try:
+                import asgiref  # noqa: F401
+                Uploader._ASYNC = True
+            except ImportError:
+                Uploader._ASYNC = False
+        return Uploader._ASYNC
 
     def upload_index(self, data: bytes) -> list:
         """upload → index → pages that read the (possibly corrupt) file → delete"""
@@ -263,6 +310,11 @@ class Uploader:
         steps.append(self._do("index", "GET", f"/media/index/{mfid}",
                               query_string={"ajax": "1", "csrf_token": self.token("files")}))
         indexed = bool((steps[-1]["json"] or {}).get("indexed"))
+        if indexed:
+            steps.append(self._do("set-timing-ref", "POST", f"/stream/{self.spk}", query_string={"ajax": "1"},
+                                  json={"title": "C16 uploads", "directory": "c16up", "marlin_la_url": "",
+                                        "playready_la_url": "", "timing_ref": name,
+                                        "csrf_token": self.token("streams")}))
         steps.append(self._do("stream-page", "GET", f"/stream/{self.spk}"))
         steps.append(self._do("media-info", "GET", f"/stream/{self.spk}/{mfid}"))
         steps.append(self._do("segments", "GET", f"/stream/{self.spk}/{mfid}/segments"))
